@@ -197,7 +197,7 @@ def run(ctx):
                          'versions under other spellings first, with independent steps permuted / reversed, and after the same program with every version literal spelled with other trailing zeros; one program in three is a family (markers sharing their root variable over different subtrees, bounds under two spellings); every observation (raw kind() dump incl. un-normalised '
                          'segments, Display, DNF, is_true/false, evaluate, ==/cmp/hash between results) must coincide. (2) raw node ids through the '
                          'verification hook: id equality <=> equal dumps, id^1 <=> negated dump, complement bit = the extracted store model\'s prediction, '
-                         'repeating an operation adds no node, stored versions are normalised. (3) id-for-id replay: programs of 14-30 API operations (MarkerTree::expression, and, or, negate, simplify_extras, simplify/complexify_python_versions) in a fresh process against the extracted model of the recursions on ids (and_i with memo cache, restrict_i, simplify/complexify_pv_i, create_node): the raw node id (index and complement bit), the arena length and the diagram must coincide after every step. non-trivial = distinct programs / distinct non-constant dumps')
+                         'repeating an operation adds no node, markers re-built after 80 000-400 000 unrelated conjunctions keep their ids, stored versions are normalised. (3) id-for-id replay: programs of 14-30 API operations (MarkerTree::expression, and, or, negate, simplify_extras, simplify/complexify_python_versions) in a fresh process against the extracted model of the recursions on ids (and_i with memo cache, restrict_i, simplify/complexify_pv_i, create_node): the raw node id (index and complement bit), the arena length and the diagram must coincide after every step. non-trivial = distinct programs / distinct non-constant dumps')
     # ---- (1) cross-history, fresh processes
     n_prog = 12 if quick else 60
     for p in range(n_prog):
@@ -284,6 +284,25 @@ def run(ctx):
     ctx.oracle_cases += 1
     if after != before:
         ctx.failure('repeating operations already performed added %d nodes to the arena' % (after - before), {})
+    # a long unrelated history (tens of thousands of fresh conjunctions: caches and tables grow, any size-triggered housekeeping runs):
+    # markers built again afterwards must be the very same ids
+    probe = [(t, r) for r, t in list(sess.texts.items())[:80]]
+    bulk = sess.ask(['bulk', '80000' if quick else '400000'])
+    ctx.oracle_cases += 1
+    if bulk[0] != 'ok':
+        ctx.failure('a long history of unrelated markers failed: %s' % dump(bulk)[:200], {'bulk': True})
+    else:
+        for t, r in probe:
+            r2, _ = sess.parse(t)
+            if r2 is None:
+                continue
+            a, b = sess.ask(['raw', str(r)]), sess.ask(['raw', str(r2)])
+            rel = sess.ask(['rel', str(r), str(r2)])
+            ctx.oracle_cases += 1
+            if a[1] != b[1] or rel[1] != 'T':
+                ctx.failure('after a long unrelated history (%s more nodes) the marker %r is interned under another id / is not == to its earlier self' % (bulk[1], t),
+                            {'marker': t, 'history': 'bulk of unrelated conjunctions', 'ids': [a[1], b[1]]})
+                break
     # versions stored in nodes are normalised (otherwise Display depends on which spelling came first)
     for v in sess.raw_versions:
         ctx.oracle_cases += 1
